@@ -289,7 +289,7 @@ def _cmp(l, op):
 # numeric proxies
 # ----------------------------------------------------------------------------------------
 def _isnum(x):
-    return isinstance(x, (int, float, Fraction, SymNum))
+    return isinstance(x, (int, float, Fraction, SymNum))  # SymFrac is handled by its own (reflected) operators
 
 
 def lin_of(x):
@@ -386,12 +386,12 @@ class SymNum(object):
 
     def __eq__(self, o):
         if not _isnum(o):
-            return False
+            return NotImplemented if isinstance(o, SymFrac) else False
         return _cmp(self.lin.sub(lin_of(o)), "eq")
 
     def __ne__(self, o):
         if not _isnum(o):
-            return True
+            return NotImplemented if isinstance(o, SymFrac) else True
         return Not(_cmp(self.lin.sub(lin_of(o)), "eq"))
 
     def __bool__(self):
@@ -423,7 +423,159 @@ def _div(n, d):
     z = _cmp(d, "eq")
     if cur().branch(z):
         raise ZeroDivisionError("float division by zero")
-    return SymReal(cur().nl_quotient(n, d))
+    # exact simplifications: 0/d = 0 and (k*d)/d = k  (d != 0 on this path)
+    if not n.t and n.c == 0:
+        return SymReal(Lin.const(0))
+    if set(n.t) == set(d.t) and n.t:
+        v0 = next(iter(d.t))
+        k = n.t[v0] / d.t[v0]
+        if n.c == k * d.c and all(n.t[v] == k * d.t[v] for v in d.t):
+            return SymReal(Lin.const(k))
+    pos = cur().branch(_cmp(d.neg(), "lt"))  # d > 0 ?
+    return SymFrac(n, d, pos)
+
+
+class SymFrac(object):
+    """k + n/d with a symbolic denominator of known sign, kept as a ratio of two linear forms so that
+    scaling by constants and comparisons against constants stay LINEAR (cross-multiplication).
+    Anything else materialises an exact quotient variable q with q*d = n."""
+
+    __slots__ = ("n", "d", "pos", "k")
+    __hash__ = None
+    __symbolic__ = True
+
+    def __init__(self, n, d, pos, k=F0):
+        self.n, self.d, self.pos, self.k = n, d, pos, k
+
+    def mat(self):
+        q = SymReal(cur().nl_quotient(self.n, self.d))
+        return q + self.k if self.k else q
+
+    def _const(self, o):
+        if isinstance(o, SymNum):
+            return o.lin.c if not o.lin.t else None
+        if isinstance(o, bool):
+            return Fraction(int(o))
+        if isinstance(o, (int, float, Fraction)):
+            return _frac(o)
+        return None
+
+    def __mul__(self, o):
+        c = self._const(o)
+        if c is not None:
+            return SymFrac(self.n.scale(c), self.d, self.pos, self.k * c) if c else SymReal(Lin.const(0))
+        return self.mat() * (o.mat() if isinstance(o, SymFrac) else o)
+
+    __rmul__ = __mul__
+
+    def __truediv__(self, o):
+        c = self._const(o)
+        if c is not None:
+            if c == 0:
+                raise ZeroDivisionError("float division by zero")
+            return SymFrac(self.n.scale(1 / c), self.d, self.pos, self.k / c)
+        return self.mat() / (o.mat() if isinstance(o, SymFrac) else o)
+
+    def __rtruediv__(self, o):
+        return o / self.mat()
+
+    def __neg__(self):
+        return SymFrac(self.n.neg(), self.d, self.pos, -self.k)
+
+    def __pos__(self):
+        return self
+
+    def __add__(self, o):
+        c = self._const(o)
+        if c is not None:
+            return SymFrac(self.n, self.d, self.pos, self.k + c)
+        if isinstance(o, SymFrac) and o.d.key() == self.d.key():
+            return SymFrac(self.n.add(o.n), self.d, self.pos, self.k + o.k)
+        return self.mat() + (o.mat() if isinstance(o, SymFrac) else o)
+
+    __radd__ = __add__
+
+    def __sub__(self, o):
+        c = self._const(o)
+        if c is not None:
+            return SymFrac(self.n, self.d, self.pos, self.k - c)
+        if isinstance(o, SymFrac) and o.d.key() == self.d.key():
+            return SymFrac(self.n.sub(o.n), self.d, self.pos, self.k - o.k)
+        return self.mat() - (o.mat() if isinstance(o, SymFrac) else o)
+
+    def __rsub__(self, o):
+        return (-self) + o
+
+    def _rel(self, o, op, swap=False):
+        """self op o  (op in lt/le/eq) by cross-multiplication when o is a constant or a ratio over the same denominator"""
+        c = self._const(o)
+        if c is not None:
+            l = self.n.sub(self.d.scale(c - self.k))  # n - (c-k)*d  (sign d) 0
+        elif isinstance(o, SymFrac) and o.d.key() == self.d.key():
+            l = self.n.sub(o.n).sub(self.d.scale(o.k - self.k))
+        else:
+            a = self.mat()
+            b = o.mat() if isinstance(o, SymFrac) else o
+            if swap:
+                a, b = b, a
+            return {"lt": a < b, "le": a <= b, "eq": a == b}[op]
+        if op == "eq":
+            return _cmp(l, "eq")
+        flip = (not self.pos) != swap
+        return _cmp(l.neg() if flip else l, op)
+
+    def __lt__(self, o):
+        return self._rel(o, "lt")
+
+    def __le__(self, o):
+        return self._rel(o, "le")
+
+    def __gt__(self, o):
+        return self._rel(o, "lt", swap=True)
+
+    def __ge__(self, o):
+        return self._rel(o, "le", swap=True)
+
+    def __eq__(self, o):
+        if not (_isnum(o) or isinstance(o, SymFrac)):
+            return False
+        return self._rel(o, "eq")
+
+    def __ne__(self, o):
+        if not (_isnum(o) or isinstance(o, SymFrac)):
+            return True
+        return Not(self._rel(o, "eq"))
+
+    def __bool__(self):
+        r = Not(self._rel(0, "eq"))
+        return r if isinstance(r, bool) else cur().branch(r)
+
+    def __abs__(self):
+        return abs(self.mat())
+
+    def __floor__(self):
+        return self.mat().__floor__()
+
+    def __ceil__(self):
+        return self.mat().__ceil__()
+
+    def __round__(self, nd=None):
+        return self.mat().__round__(nd)
+
+    def __trunc__(self):
+        return self.mat().__trunc__()
+
+    def __float__(self):
+        raise ModelGap("float() of a symbolic ratio")
+
+    def __format__(self, spec):
+        return self.mat().__format__(spec)
+
+    def __str__(self):
+        return str(self.mat())
+
+    def __repr__(self):
+        return "SymFrac(%s + %r / %r)" % (self.k, self.n, self.d)
 
 
 class SymReal(SymNum):
@@ -900,7 +1052,11 @@ class Engine(object):
     def nl_quotient(self, n, d):
         """n/d with d != 0 already on the path"""
         nl = self.nl_mode == "defer"
+        key = ("quo", n.key(), d.key())
+        if key in self.memo_prod:
+            return Lin.var(self.memo_prod[key])
         i = self._aux("quo", "R", lambda w: n.eval(w) / d.eval(w), nl=nl)
+        self.memo_prod[key] = i
         mk = lambda: self.zvars[i] * self.lin_z3(d, True) == self.lin_z3(n, True)
         if nl:
             self.deferred_z3defs.append(mk)
